@@ -47,20 +47,30 @@ Proof.
   repeat (apply Forall_cons || apply Forall_nil || split || reflexivity || nodup).
 Qed.
 
-Lemma s_reconstruct : snd (certificate w_obj s_sent s_duals) == 481 # 400.
+Lemma s_reconstruct : snd (certificate w_obj s_sent w_ids s_duals) == 481 # 400.
 Proof. vm_compute. reflexivity. Qed.
 
 Lemma s_dual_feasible :
-  let '(a, res) := exposed s_sent s_duals in dual_feasible a /\ rank1sum (res_matrix res) 1.
+  let '(a, res) := exposed s_sent w_ids s_duals in dual_feasible a /\ rank1sum (res_matrix res) 1.
 Proof.
-  cbn. split; [split; [q2r; lra|split; [q2r; lra|split; [|exact I]]]|].
+  cbn. split; [split; [q2r; lra|split; [q2r; lra|split; [|split; [|split; [|exact I]]]]]|].
   - split; [split; [reflexivity|repeat constructor]|].
     exists [fun k => match k with 0%nat => 1 / 2 | _ => -1 end].
     intros i j Hi Hj. unfold matR, matq, nrows, s_lmi in *. cbn [length] in *.
     destruct i as [|[|i]], j as [|[|j]]; try lia; cbn [nth rank1_at]; q2r; lra.
+  - split; [reflexivity|repeat constructor].
+  - intros i j Hi Hj. unfold matR, matq, nrows, s_lmi in *. cbn [length] in *.
+    destruct i as [|[|i]], j as [|[|j]]; try lia; cbn [nth]; q2r; lra.
   - split; [split; [reflexivity|repeat constructor]|].
     exists []. intros i j Hi Hj. destruct i, j; try lia. unfold matR, matq. cbn. q2r. lra.
 Qed.
+
+(** the same constraint object sent twice (ids 0, 1, 1): both occurrences show the dual of the LAST one *)
+Lemma duplicate_shows_last :
+  map (fun p => snd (fst p)) (fst (exposed [SC [] Ineq; SC [(K1, 1%Q)] Ineq; SC [(K1, 1%Q)] Ineq] [0; 1; 1]%nat
+                                         [VM []; VS 5%Q; VS 1%Q; VS 2%Q]))
+  = [VS 5%Q; VS 2%Q; VS 2%Q].
+Proof. vm_compute. reflexivity. Qed.
 
 Definition s_F : nat -> R := fun _ => 9 / 10.
 
